@@ -39,8 +39,20 @@ Definition h_ucost (args : list bytes) : bytes := to_dec (compute_unknown_condit
 Definition h_opcode (args : list bytes) : bytes :=
   match parse_opcode (Atom (hx (arg 0 args))) with Some op => to_dec op | None => str "none" end.
 
+(* cond.finalmsg OP MSG PARENT PH AMOUNT CONSTS : message an AGG_SIG condition commits to *)
+Definition h_finalmsg (args : list bytes) : bytes :=
+  let op := dec (arg 0 args) in
+  let msg := hx (arg 1 args) in
+  let parent := hx (arg 2 args) in
+  let ph := hx (arg 3 args) in
+  let amount := dec (arg 4 args) in
+  let K := consts_of (hx (arg 5 args)) in
+  let s := new_spend parent amount ph (sha256 (parent ++ ph ++ coin_amount_bytes amount)) 0 in
+  hexo (msg ++ agg_sig_suffix K op s).
+
 Definition cond_handlers : list (bytes * handler) :=
-  [ (str "cond.parse", h_parse); (str "cond.ucost", h_ucost); (str "cond.opcode", h_opcode) ].
+  [ (str "cond.parse", h_parse); (str "cond.ucost", h_ucost); (str "cond.opcode", h_opcode);
+    (str "cond.finalmsg", h_finalmsg) ].
 
 Definition dispatch_n (line : list N) : list N :=
   map b2n (dispatch_table cond_handlers (map n2b line)).
